@@ -984,22 +984,37 @@ class SArray(_np.ndarray):
         r.ldtype = self.ldtype
         return r
 
+    def __invert__(self):
+        return NP._bmap(lambda v: (~v) if isinstance(v, SymBool) else ((not v) if isinstance(v, (bool, _np.bool_)) else ~v), self)
+
     def sum(self, axis=None, **k):
+        if self.dtype != object:
+            return getattr(self.view(_np.ndarray), "sum")(axis=axis, **k)
         return NP.sum(self, axis=axis)
 
     def any(self, axis=None, **k):
+        if self.dtype != object:
+            return getattr(self.view(_np.ndarray), "any")(axis=axis, **k)
         return NP.any(self, axis=axis)
 
     def all(self, axis=None, **k):
+        if self.dtype != object:
+            return getattr(self.view(_np.ndarray), "all")(axis=axis, **k)
         return NP.all(self, axis=axis)
 
     def max(self, axis=None, **k):
+        if self.dtype != object:
+            return getattr(self.view(_np.ndarray), "max")(axis=axis, **k)
         return NP.max(self, axis=axis)
 
     def min(self, axis=None, **k):
+        if self.dtype != object:
+            return getattr(self.view(_np.ndarray), "min")(axis=axis, **k)
         return NP.min(self, axis=axis)
 
     def argmax(self, axis=None, **k):
+        if self.dtype != object:
+            return getattr(self.view(_np.ndarray), "argmax")(axis=axis, **k)
         return NP.argmax(self, axis=axis)
 
 
@@ -1569,6 +1584,8 @@ class _NP:
         return out
 
     def sort(self, x, axis=-1):
+        if not isinstance(x, _np.ndarray):
+            x = self.array(x) if any(isinstance(v, Sym) for v in _np.asarray(_tolist(x), dtype=object).ravel()) else _np.asarray(x)
         if isinstance(x, _np.ndarray) and x.dtype != object:
             return _np.sort(x, axis=axis)
         r = x.copy()
